@@ -128,6 +128,15 @@ def make_arg(name, kind):
         return SetV(z3.Array(name + '_has', ks, B), k)
     if kind == 'opaque':
         return ObjV('opaque')
+    if kind == 'none':
+        return NONE()
+    if kind.startswith('exc:'):
+        return NONE() if kind == 'exc:None' else ExcClassV(kind[4:])
+    if kind.startswith('obj:'):
+        return ObjV(kind[4:], {})
+    if kind == 'rcobj':
+        # a _ReorderingContext instance after __init__/__enter__: fields bdd (manager) and nested (symbolic flag)
+        return ObjV('dd.bdd._ReorderingContext', {'bdd': MgrV('bdd'), 'nested': BoolV(z3.Bool('nested0'))})
     if kind.startswith('callable:'):
         return ObjV('callable', dict(qual=kind[9:]))
     raise KeyError(kind)
@@ -167,10 +176,13 @@ def generate(target, registry):
     info = dict(function=qual, contract=ckey, source_hash=h, lines=list(lines), variant=target.get('variant', ''))
     ex = Exec(ckey + (f"[{target['variant']}]" if target.get('variant') else ''), fn, c, registry, mod, cls,
               consts=target.get('consts'))
+    ex.finder = find_function
     env, mgrs = {}, {}
     params = [a.arg for a in fn.args.args] + [a.arg for a in fn.args.kwonlyargs]
     cparams = dict(c.params)
     override = target.get('args', {})
+    for n, v in target.get('env', {}).items():
+        env[n] = make_arg(n, v)
     for n in params:
         kind = override.get(n, cparams.get(n))
         if kind is None:
@@ -183,6 +195,11 @@ def generate(target, registry):
                 v.key = alias
             if v.key not in mgrs:
                 mgrs[v.key] = State(v.key)
+    for v in list(env.values()):
+        if isinstance(v, ObjV):
+            for av in v.attrs.values():
+                if isinstance(av, MgrV) and av.key not in mgrs:
+                    mgrs[av.key] = State(av.key)
     if fn.args.vararg:
         n = fn.args.vararg.arg
         kind = cparams.get(n)
@@ -199,7 +216,7 @@ def generate(target, registry):
     p0 = Path(mgrs, env, [])
     ex.entry_mgrs = entry_mgrs
     zargs = ex.z_args(c, {n: env[n] for n, _ in c.params if n in env}, p0)
-    mkey = env[c.mgr].key if c.mgr in env and isinstance(env[c.mgr], MgrV) else None
+    mkey = env[c.mgr].key if c.mgr in env and isinstance(env[c.mgr], MgrV) else (c.mgr if c.mgr in mgrs else None)
     S0 = entry_mgrs[mkey] if mkey else None
     ctx0 = Ctx(S=S0, S0=S0, a=Ctx(**zargs), mgrs=entry_mgrs, uses=c.uses, ex=ex, path=p0)
     pre = c.pre(ctx0)
